@@ -308,6 +308,59 @@ def gen_rec_nested(rng, faults=True, n_max=10, **kw):
     return gen_rec(rng, faults=faults, n_max=n_max)
 
 
+def overlay_rec(rng, spec, tries=40):
+    """turn one In edge dest->consumer of an existing program into a recurrent subgraph (start, dest);
+    returns True on success.  No outside reader of an inner node unless downstream of dest."""
+    nodes = {n['name']: n for n in spec['nodes']}
+    edges = declared_edges(spec)
+    succ, pred = {}, {}
+    for a, b in edges:
+        succ.setdefault(a, set()).add(b)
+        pred.setdefault(b, set()).add(a)
+    order = [n['name'] for n in spec['nodes']]
+    for _ in range(tries):
+        cands = [d for d in order if d != spec['input'] and not isinstance(nodes[d].get('value'), dict)
+                 and any(p[1][0] == 'In' and p[1][1] == d for c in succ.get(d, ()) for p in nodes[c]['params'])]
+        if not cands:
+            return False
+        dest = rng.choice(cands)
+        anc = _closure(pred, dest)
+        if not anc:
+            continue
+        start = rng.choice(sorted(anc))
+        if isinstance(nodes[start].get('value'), dict):
+            continue
+        P = path_set(spec, start, dest)
+        if _outside_reader(edges, P, dest, _closure(succ, dest)):
+            continue
+        cons = [c for c in sorted(succ[dest]) if any(p[1][0] == 'In' and p[1][1] == dest for p in nodes[c]['params'])]
+        c = rng.choice(cons)
+        mx = rng.choice([1, 2, 2, 3])
+        for p in nodes[c]['params']:
+            if p[1][0] == 'In' and p[1][1] == dest:
+                p[1] = ['Rec', start, dest, mx]
+                break
+        nodes[dest]['rec'] = {'start': start, 'k': rng.choice([0, 1, 1, 2, mx, mx + 1])}
+        nodes[dest].pop('value', None)
+        nodes[start]['add_data'] = True
+        if rng.random() < 0.5:
+            r = nodes[dest].setdefault('retry', {'attempts': None, 'delay': None, 'exceptions': None})
+            r['use_default'] = True
+        return True
+    return False
+
+
+def gen_rec_mixed(rng, faults=True, n_max=9, **kw):
+    """a recurrent subgraph laid over a program with switches / one-ofs (inside, around or beside the path)"""
+    base = rng.choice(['switch', 'oneof', 'switch_shared', 'mix_main'])
+    for _ in range(20):
+        spec = gen_constructs(rng, CFG[base], faults=faults, n_max=n_max, **kw)
+        if overlay_rec(rng, spec):
+            spec['class'] = 'rec_mixed'
+            return spec
+    return gen_rec(rng, faults=faults, n_max=n_max)
+
+
 def gen_input(rng):
     keys = rng.sample(['x', 'y', 'z'], rng.randint(1, 3))
     return {k: rng.choice([0, 1, 2, 3, 7, None, '', 'a', 'bc', -1]) for k in sorted(keys)}
@@ -678,6 +731,7 @@ def gen_hub(rng, faults=True, n_max=10, **kw):
 
 
 GENERATORS['hub'] = gen_hub
+GENERATORS['rec_mixed'] = gen_rec_mixed
 
 CFG = {
     'switch': {'name': 'switch', 'constructs': ['switch'], 'shared': False, 'p_nest': 0.25, 'max_nest': 2},
